@@ -1,4 +1,312 @@
-import MellonProofs.Real
-import MellonModel.Kernel
+/-
+  C05 — Kernels compute their documented closed forms and are valid covariances.
+  Property theorems only (helpers are in KernelLemmas.lean).  All statements are about the model
+  `Mellon.Cov` at α = ℝ, for every expression tree, every point and every active-dims form.
+-/
+import MellonProofs.KernelLemmas
+
 namespace Mellon.C05
+open Mellon
+
+/-! ### distance -/
+
+/-- `util.distance` is the Euclidean distance up to the 1e-12 squared-distance regulariser. -/
+theorem dist_eq (x y : List ℝ) (h : x.length = y.length) :
+    distance x y = Real.sqrt (sqdist x y + 1e-12) := distance_eq x y h
+
+theorem dist_symm (x y : List ℝ) : distance x y = distance y x := distance_symm x y
+
+/-- Coincident points are at distance `√1e-12 = 1e-6`. -/
+theorem dist_self (x : List ℝ) : distance x x = Real.sqrt 1e-12 := distance_self x
+
+/-! ### closed forms of the six kernels (`sel` = the node's own active columns) -/
+
+theorem matern32_closed_form (ls : ℝ) (ad : ActiveDims) (x y : List ℝ) :
+    (Cov.matern32 ls ad).k x y
+      = (1 + Real.sqrt 3 * distance (select ad x) (select ad y) / ls)
+          * Real.exp (-(Real.sqrt 3 * distance (select ad x) (select ad y) / ls)) := by
+  simp only [Cov.k, matern32Profile_eq]
+
+theorem matern52_closed_form (ls : ℝ) (ad : ActiveDims) (x y : List ℝ) :
+    (Cov.matern52 ls ad).k x y
+      = (1 + Real.sqrt 5 * distance (select ad x) (select ad y) / ls
+            + 5 * distance (select ad x) (select ad y) ^ 2 / (3 * ls ^ 2))
+          * Real.exp (-(Real.sqrt 5 * distance (select ad x) (select ad y) / ls)) := by
+  simp only [Cov.k, matern52Profile_eq]
+
+theorem expquad_closed_form (ls : ℝ) (ad : ActiveDims) (x y : List ℝ) :
+    (Cov.expquad ls ad).k x y
+      = Real.exp (-(distance (select ad x) (select ad y) ^ 2 / (2 * ls ^ 2))) := by
+  simp only [Cov.k, expquadProfile_eq]
+
+theorem exponential_closed_form (ls : ℝ) (ad : ActiveDims) (x y : List ℝ) :
+    (Cov.exponential ls ad).k x y
+      = Real.exp (-(distance (select ad x) (select ad y) / (2 * ls))) := by
+  simp only [Cov.k, exponentialProfile_eq]
+
+/-- The exponent is `−α` (the docstring of `RatQuad` prints `−α·l`; the code and this model use `−α`). -/
+theorem ratquad_closed_form (alpha ls : ℝ) (ad : ActiveDims) (x y : List ℝ) :
+    (Cov.ratquad alpha ls ad).k x y
+      = (1 + distance (select ad x) (select ad y) ^ 2 / (2 * alpha * ls ^ 2)) ^ (-alpha) := by
+  simp only [Cov.k, ratquadProfile_eq]
+
+theorem linear_closed_form (ls : ℝ) (ad : ActiveDims) (x y : List ℝ) :
+    (Cov.linear ls ad).k x y = dot (select ad x) (select ad y) / ls := rfl
+
+/-! ### algebra nodes: pointwise sum / product / power on the node's own columns -/
+
+theorem add_k (l r : Cov ℝ) (ad : ActiveDims) (x y : List ℝ) :
+    (Cov.add l r ad).k x y = l.k (select ad x) (select ad y) + r.k (select ad x) (select ad y) := rfl
+
+theorem addC_k (l : Cov ℝ) (c : ℝ) (ad : ActiveDims) (x y : List ℝ) :
+    (Cov.addC l c ad).k x y = l.k (select ad x) (select ad y) + c := rfl
+
+theorem mul_k (l r : Cov ℝ) (ad : ActiveDims) (x y : List ℝ) :
+    (Cov.mul l r ad).k x y = l.k (select ad x) (select ad y) * r.k (select ad x) (select ad y) := rfl
+
+theorem mulC_k (l : Cov ℝ) (c : ℝ) (ad : ActiveDims) (x y : List ℝ) :
+    (Cov.mulC l c ad).k x y = l.k (select ad x) (select ad y) * c := rfl
+
+theorem pow_k (l : Cov ℝ) (p : ℝ) (ad : ActiveDims) (x y : List ℝ) :
+    (Cov.pow l p ad).k x y = (l.k (select ad x) (select ad y)) ^ p := rfl
+
+/-- The time-aware covariance is (state kernel on all but the last column) × (time kernel on the
+    last column). -/
+theorem time_cov (base : ℝ → ActiveDims → Cov ℝ) (ls lsT : ℝ) (x y : List ℝ) :
+    (timeCov base ls lsT).k x y
+      = (base ls (.slice none (some (-1)) none)).k x y * (base lsT (.idx (-1))).k x y := rfl
+
+theorem rangeList_nat (fuel s e : Nat) (h : e - s ≤ fuel) :
+    rangeList fuel (s : Int) (e : Int) 1 = List.range' s (e - s) := by
+  induction fuel generalizing s with
+  | zero =>
+    have : e - s = 0 := by omega
+    simp [rangeList, this]
+  | succ f ih =>
+    unfold rangeList
+    by_cases hlt : s < e
+    · have c1 : ((1:Int) > 0 ∧ (s:Int) < (e:Int)) := by omega
+      simp only [c1, true_or, if_true]
+      have hds : e - s = (e - (s + 1)) + 1 := by omega
+      rw [hds, List.range'_succ]
+      congr 1
+      have := ih (s + 1) (by omega)
+      simpa using this
+    · have c1 : ¬ (((1:Int) > 0 ∧ (s:Int) < (e:Int)) ∨ ((1:Int) < 0 ∧ (s:Int) > (e:Int))) := by omega
+      have : e - s = 0 := by omega
+      simp only [c1, if_false, this, List.range'_zero]
+
+/-- With width `d + 1`, `slice(None, -1)` selects columns `0 … d-1` and index `-1` column `d`. -/
+theorem time_cov_columns (d : Nat) :
+    (ActiveDims.slice none (some (-1)) none).indices (d + 1) = some (List.range d)
+    ∧ (ActiveDims.idx (-1)).indices (d + 1) = some [d] := by
+  constructor
+  · simp only [ActiveDims.indices, sliceIndices, Option.getD_none]
+    have h1 : ¬ ((1:Int) = 0) := by decide
+    have h2 : decide ((1:Int) < 0) = false := by decide
+    simp only [h1, if_false, h2, adjustBound]
+    have h3 : ((-1 : Int) < 0) := by decide
+    have h4 : ¬ ((-1 : Int) + ((d + 1 : Nat) : Int) < 0) := by omega
+    simp only [h3, if_true, h4, if_false, Bool.false_eq_true]
+    have h5 : (-1 : Int) + ((d + 1 : Nat) : Int) = (d : Int) := by omega
+    rw [h5]
+    have := rangeList_nat (d + 1 + 1) 0 d (by omega)
+    simp only [Nat.cast_zero, Nat.sub_zero] at this
+    rw [this, List.range_eq_range']
+  · simp only [ActiveDims.indices, resolveIdx]
+    have h1 : ¬ ((0:Int) ≤ -1 ∧ (-1:Int) < ((d+1 : Nat) : Int)) := by omega
+    have h2 : ((-1:Int) < 0 ∧ -((d+1 : Nat) : Int) ≤ -1) := by omega
+    simp only [h1, if_false, h2, and_self, if_true, Option.map_some]
+    congr 2
+    omega
+
+/-! ### symmetry, for every expression tree -/
+
+theorem k_symm (c : Cov ℝ) (x y : List ℝ) : c.k x y = c.k y x := by
+  induction c generalizing x y with
+  | matern32 ls ad => simp only [Cov.k, distance_symm]
+  | matern52 ls ad => simp only [Cov.k, distance_symm]
+  | expquad ls ad => simp only [Cov.k, distance_symm]
+  | exponential ls ad => simp only [Cov.k, distance_symm]
+  | ratquad a ls ad => simp only [Cov.k, distance_symm]
+  | linear ls ad => simp only [Cov.k, dot_comm]
+  | add l r ad ihl ihr => simp only [Cov.k]; rw [ihl, ihr]
+  | addC l c ad ih => simp only [Cov.k]; rw [ih]
+  | mul l r ad ihl ihr => simp only [Cov.k]; rw [ihl, ihr]
+  | mulC l c ad ih => simp only [Cov.k]; rw [ih]
+  | pow l p ad ih => simp only [Cov.k]; rw [ih]
+
+/-! ### stationary kernels: values in (0, 1], unit self-covariance up to the regulariser -/
+
+/-- The five distance-based kernels. -/
+inductive Stationary : Cov ℝ → Prop
+  | matern32 {ls ad} : 0 < ls → Stationary (.matern32 ls ad)
+  | matern52 {ls ad} : 0 < ls → Stationary (.matern52 ls ad)
+  | expquad {ls ad} : 0 < ls → Stationary (.expquad ls ad)
+  | exponential {ls ad} : 0 < ls → Stationary (.exponential ls ad)
+  | ratquad {a ls ad} : 0 < a → 0 < ls → Stationary (.ratquad a ls ad)
+
+theorem stationary_range {c : Cov ℝ} (h : Stationary c) (x y : List ℝ) :
+    0 < c.k x y ∧ c.k x y ≤ 1 := by
+  cases h with
+  | matern32 hls => exact matern32Profile_range hls (distance_nonneg _ _)
+  | matern52 hls => exact matern52Profile_range hls (distance_nonneg _ _)
+  | expquad hls => exact expquadProfile_range hls (distance_nonneg _ _)
+  | exponential hls => exact exponentialProfile_range hls (distance_nonneg _ _)
+  | ratquad ha hls => exact ratquadProfile_range ha hls (distance_nonneg _ _)
+
+/-- Self-covariance is the profile at the regulariser distance `1e-6`: in `(0, 1]`, and it is
+    `1` up to a term that vanishes with `1e-6/ls`. -/
+theorem self_cov_matern32 (ls : ℝ) (ad : ActiveDims) (hls : 0 < ls) (x : List ℝ) :
+    1 - (Real.sqrt 3 * Real.sqrt 1e-12 / ls) ^ 2 ≤ (Cov.matern32 ls ad).k x x
+      ∧ (Cov.matern32 ls ad).k x x ≤ 1 := by
+  refine ⟨?_, (stationary_range (.matern32 hls) x x).2⟩
+  rw [matern32_closed_form, distance_self]
+  have hd : (distEps : ℝ) = 1e-12 := rfl
+  rw [hd]
+  set r := Real.sqrt 3 * Real.sqrt 1e-12 / ls with hr
+  have hr0 : 0 ≤ r := by positivity
+  have h1 : 1 - r ≤ Real.exp (-r) := by linarith [Real.add_one_le_exp (-r)]
+  calc 1 - r ^ 2 = (1 + r) * (1 - r) := by ring
+    _ ≤ (1 + r) * Real.exp (-r) := by
+        exact mul_le_mul_of_nonneg_left h1 (by linarith)
+
+theorem self_cov_expquad (ls : ℝ) (ad : ActiveDims) (hls : 0 < ls) (x : List ℝ) :
+    1 - 1e-12 / (2 * ls ^ 2) ≤ (Cov.expquad ls ad).k x x ∧ (Cov.expquad ls ad).k x x ≤ 1 := by
+  refine ⟨?_, (stationary_range (.expquad hls) x x).2⟩
+  rw [expquad_closed_form, distance_self]
+  have hd : (distEps : ℝ) = 1e-12 := rfl
+  rw [hd, Real.sq_sqrt (by norm_num)]
+  linarith [Real.add_one_le_exp (-(1e-12 / (2 * ls ^ 2)))]
+
+/-! ### diag shortcut and inactive dimensions -/
+
+/-- `cov.diag(X)ᵢ = k(Xᵢ, Xᵢ)` — the diagonal of `cov(X, X)`. -/
+theorem diag_eq {n d : Nat} (c : Cov ℝ) (X : Mat ℝ n d) (i : Nat) (hi : i < n) :
+    (gramDiag c X).nth i = (gram c X X).el i i := by
+  simp [gramDiag, gram, hi]
+
+/-- Inactive dimensions never influence a value: the kernel only sees the selected columns of its
+    root node. -/
+theorem inactive_irrelevant (c : Cov ℝ) (x x' y y' : List ℝ)
+    (hx : select c.ad x = select c.ad x') (hy : select c.ad y = select c.ad y') :
+    c.k x y = c.k x' y' := by
+  cases c <;> simp only [Cov.k, Cov.ad] at * <;> rw [hx, hy]
+
+/-! ### positive semi-definiteness (partial: see DESIGN.md §3) -/
+
+/-- Gram matrices of `k` are positive semi-definite. -/
+def PSDKernel (k : List ℝ → List ℝ → ℝ) : Prop :=
+  ∀ (n : Nat) (xs : Fin n → List ℝ) (a : Fin n → ℝ), 0 ≤ ∑ i, ∑ j, a i * a j * k (xs i) (xs j)
+
+theorem dot_sum_left {n : Nat} (xs : Fin n → List ℝ) (a : Fin n → ℝ) (d : Nat)
+    (hlen : ∀ i, (xs i).length = d) :
+    ∃ v : List ℝ, v.length = d ∧ ∀ w : List ℝ, w.length = d → ∑ i, a i * dot (xs i) w = dot v w := by
+  induction d generalizing xs with
+  | zero =>
+    refine ⟨[], rfl, fun w hw => ?_⟩
+    have hw' : w = [] := List.length_eq_zero_iff.mp hw
+    subst hw'
+    have : ∀ i, xs i = [] := fun i => List.length_eq_zero_iff.mp (hlen i)
+    simp [this, dot]
+  | succ d ih =>
+    have hne : ∀ i, xs i ≠ [] := fun i h => by have := hlen i; rw [h] at this; simp at this
+    let hd : Fin n → ℝ := fun i => (xs i).head (hne i)
+    let tl : Fin n → List ℝ := fun i => (xs i).tail
+    have hcons : ∀ i, xs i = hd i :: tl i := fun i => (List.cons_head_tail (hne i)).symm
+    obtain ⟨v, hv, hvw⟩ := ih tl (fun i => by simp [tl, hlen i])
+    refine ⟨(∑ i, a i * hd i) :: v, by simp [hv], fun w hw => ?_⟩
+    cases w with
+    | nil => simp at hw
+    | cons b bs =>
+      have hbs : bs.length = d := by simpa using hw
+      simp only [dot]
+      rw [← hvw bs hbs, Finset.sum_mul, ← Finset.sum_add_distrib]
+      apply Finset.sum_congr rfl
+      intro i _
+      rw [hcons i]; simp only [dot]; ring
+
+/-- The Linear kernel (no active-dims restriction, equal-width points, `ls > 0`) is PSD:
+    `Σᵢⱼ aᵢaⱼ⟨xᵢ,xⱼ⟩/ls = ‖Σᵢ aᵢxᵢ‖²/ls`. -/
+theorem psd_linear (ls : ℝ) (hls : 0 < ls) (n d : Nat) (xs : Fin n → List ℝ) (a : Fin n → ℝ)
+    (hlen : ∀ i, (xs i).length = d) :
+    0 ≤ ∑ i, ∑ j, a i * a j * (Cov.linear ls .none).k (xs i) (xs j) := by
+  obtain ⟨v, hv, hvw⟩ := dot_sum_left xs a d hlen
+  have key : ∑ i, ∑ j, a i * a j * (Cov.linear ls .none).k (xs i) (xs j) = dot v v / ls := by
+    have h1 : ∀ j, ∑ i, a i * dot (xs i) (xs j) = dot v (xs j) := fun j => hvw (xs j) (hlen j)
+    have h2 : ∑ j, a j * dot (xs j) v = dot v v := hvw v hv
+    calc ∑ i, ∑ j, a i * a j * (Cov.linear ls .none).k (xs i) (xs j)
+        = ∑ j, a j * (∑ i, a i * dot (xs i) (xs j)) / ls := by
+          rw [Finset.sum_comm]
+          apply Finset.sum_congr rfl; intro j _
+          rw [Finset.mul_sum, Finset.sum_div]
+          apply Finset.sum_congr rfl; intro i _
+          simp only [Cov.k, select]; ring
+      _ = ∑ j, a j * dot (xs j) v / ls := by
+          apply Finset.sum_congr rfl; intro j _
+          rw [h1 j, dot_comm]
+      _ = dot v v / ls := by rw [← Finset.sum_div, h2]
+  rw [key]
+  exact div_nonneg (dot_self_nonneg v) (le_of_lt hls)
+
+/-- PSD kernels are closed under sums … -/
+theorem psd_add {k1 k2 : List ℝ → List ℝ → ℝ} (h1 : PSDKernel k1) (h2 : PSDKernel k2) :
+    PSDKernel (fun x y => k1 x y + k2 x y) := by
+  intro n xs a
+  have e : ∑ i, ∑ j, a i * a j * (k1 (xs i) (xs j) + k2 (xs i) (xs j))
+      = ∑ i, ∑ j, a i * a j * k1 (xs i) (xs j) + ∑ i, ∑ j, a i * a j * k2 (xs i) (xs j) := by
+    rw [← Finset.sum_add_distrib]
+    apply Finset.sum_congr rfl; intro i _
+    rw [← Finset.sum_add_distrib]
+    apply Finset.sum_congr rfl; intro j _
+    ring
+  show 0 ≤ ∑ i, ∑ j, a i * a j * (k1 (xs i) (xs j) + k2 (xs i) (xs j))
+  rw [e]
+  exact add_nonneg (h1 n xs a) (h2 n xs a)
+
+/-- … under adding a non-negative constant … -/
+theorem psd_addC {k : List ℝ → List ℝ → ℝ} (h : PSDKernel k) {c : ℝ} (hc : 0 ≤ c) :
+    PSDKernel (fun x y => k x y + c) := by
+  intro n xs a
+  have hsq : ∑ i, ∑ j, a i * a j * c = (∑ i, a i) ^ 2 * c := by
+    rw [sq, Finset.sum_mul_sum, Finset.sum_mul]
+    apply Finset.sum_congr rfl; intro i _
+    rw [Finset.sum_mul]
+  have hcn : 0 ≤ ∑ i, ∑ j, a i * a j * c := by rw [hsq]; positivity
+  have e : ∑ i, ∑ j, a i * a j * (k (xs i) (xs j) + c)
+      = ∑ i, ∑ j, a i * a j * k (xs i) (xs j) + ∑ i, ∑ j, a i * a j * c := by
+    rw [← Finset.sum_add_distrib]
+    apply Finset.sum_congr rfl; intro i _
+    rw [← Finset.sum_add_distrib]
+    apply Finset.sum_congr rfl; intro j _
+    ring
+  show 0 ≤ ∑ i, ∑ j, a i * a j * (k (xs i) (xs j) + c)
+  rw [e]
+  exact add_nonneg (h n xs a) hcn
+
+/-- … under multiplication by a non-negative constant … -/
+theorem psd_mulC {k : List ℝ → List ℝ → ℝ} (h : PSDKernel k) {c : ℝ} (hc : 0 ≤ c) :
+    PSDKernel (fun x y => k x y * c) := by
+  intro n xs a
+  have e : ∑ i, ∑ j, a i * a j * (k (xs i) (xs j) * c)
+      = (∑ i, ∑ j, a i * a j * k (xs i) (xs j)) * c := by
+    rw [Finset.sum_mul]
+    apply Finset.sum_congr rfl; intro i _
+    rw [Finset.sum_mul]
+    apply Finset.sum_congr rfl; intro j _
+    ring
+  show 0 ≤ ∑ i, ∑ j, a i * a j * (k (xs i) (xs j) * c)
+  rw [e]
+  exact mul_nonneg (h n xs a) hc
+
+/-- … and under restriction to active columns. -/
+theorem psd_select {k : List ℝ → List ℝ → ℝ} (h : PSDKernel k) (ad : ActiveDims) :
+    PSDKernel (fun x y => k (select ad x) (select ad y)) :=
+  fun n xs a => h n (fun i => select ad (xs i)) a
+
+/-! ### non-vacuity -/
+
+example : Stationary (.matern52 (2:ℝ) .none) := .matern52 (by norm_num)
+example : ([1, 2] : List ℝ).length = ([3, 4] : List ℝ).length := rfl
+
 end Mellon.C05
